@@ -44,7 +44,11 @@ func c13Count(run *verifkit.Run, name string, k int) {
 func TestVerifC13(t *testing.T) {
 	run := verifkit.Start(t, "C13")
 	defer run.Finish()
-	defer func() { maxBlockSize = 1 << 26 }()
+	defer func() {
+		if !c13Dead { // goroutines stuck in the filesystem may still read it
+			maxBlockSize = 1 << 26
+		}
+	}()
 	n := run.N(240, 5000)
 	run.Cases("run", n, func(i int, rng *verifkit.Rand) {
 		if c13Dead {
@@ -460,28 +464,28 @@ func (a *c13API) take() (string, int) {
 
 // ------------------------------------------------------------ goroutine dump
 
-// c13BlockedSites summarizes a goroutine dump: the innermost collection-
-// filesystem function of every goroutine that is inside the filesystem.
-func c13BlockedSites(dump string) (sites []string, filtered string) {
-	seen := map[string]bool{}
+// c13BlockedSites summarizes a goroutine dump taken after 30 s without
+// progress. For the signature: whether some goroutine waits for the writer
+// throttle (then nothing else matters: no Keep write is in flight, so nobody
+// will ever release it), otherwise the multi-lock API calls that are stuck
+// (the candidates for a lock cycle; single-file operations are victims).
+func c13BlockedSites(dump string) (sig string, filtered string) {
+	multi := map[string]bool{}
+	throttled := false
 	var sb strings.Builder
 	for _, g := range strings.Split(dump, "\n\n") {
 		if !strings.Contains(g, "sdk/go/arvados/fs_") && !strings.Contains(g, "sdk/go/arvados/throttle.go") {
 			continue
 		}
-		lines := strings.Split(g, "\n")
-		for i := 1; i+1 < len(lines); i += 2 {
-			fn, file := lines[i], strings.TrimSpace(lines[i+1])
-			if strings.Contains(file, "zz_verif_") || !(strings.Contains(file, "sdk/go/arvados/fs_") || strings.Contains(file, "sdk/go/arvados/throttle.go")) {
-				continue
-			}
-			if j := strings.LastIndex(fn, "("); j > 0 {
-				fn = fn[:j]
-			}
-			fn = strings.TrimPrefix(fn, "git.arvados.org/arvados.git/sdk/go/arvados.")
-			seen[fn] = true
-			break
+		if strings.Contains(g, "(*throttle).Acquire") {
+			throttled = true
 		}
+		for _, api := range []string{"(*fileSystem).Rename", "(*collectionFileSystem).MarshalManifest", "(*collectionFileSystem).Flush", "(*collectionFileSystem).Sync", "(*fileSystem).remove", "(*fileSystem).Mkdir"} {
+			if strings.Contains(g, "arvados."+api+"(") {
+				multi[api[strings.LastIndex(api, ".")+1:]] = true
+			}
+		}
+		lines := strings.Split(g, "\n")
 		if sb.Len() < 5000 {
 			if len(lines) > 14 {
 				lines = lines[:14]
@@ -489,12 +493,13 @@ func c13BlockedSites(dump string) (sites []string, filtered string) {
 			sb.WriteString(strings.Join(lines, "\n") + "\n\n")
 		}
 	}
-	for s := range seen {
+	if throttled {
+		return "waiting-for-writer-throttle-with-no-keep-write-in-flight", sb.String()
+	}
+	var sites []string
+	for s := range multi {
 		sites = append(sites, s)
 	}
 	sort.Strings(sites)
-	if len(sites) > 6 {
-		sites = sites[:6]
-	}
-	return sites, sb.String()
+	return "lock-wait-among:" + strings.Join(sites, "+"), sb.String()
 }
